@@ -678,8 +678,7 @@ Definition missing (s : store) (rt : rtype) (c : cst) : bool :=
 
 (* what happens when the constraints of a level are turned into an iterator, in the order they
    are written: the first failure decides *)
-Inductive levelres := LvOk | LvEmpty (* NotFoundError: nothing satisfies the level *) | LvInvalid
-                    | LvPanic (* todo!("UNION not implemented yet") in init_state_textselections *).
+Inductive levelres := LvOk | LvEmpty (* NotFoundError: nothing satisfies the level *) | LvInvalid.
 
 Definition is_union (c : cst) : bool := match c with CUnion _ => true | _ => false end.
 
@@ -687,7 +686,8 @@ Fixpoint scan_level (s : store) (e : env) (rt : rtype) (primary : bool) (cs : li
   match cs with
   | [] => LvOk
   | c :: r =>
-      if match rt with TText => is_union c | _ => false end then (if primary then LvPanic else LvInvalid)
+      (* UNION is not implemented for TEXT queries, in neither role: QuerySyntaxError *)
+      if match rt with TText => is_union c | _ => false end then LvInvalid
       else if negb (supported rt primary c) then LvInvalid
       else match c with
            | CUnion _ => scan_level s e rt false r     (* missing items and variables: the branch is skipped *)
@@ -1073,7 +1073,6 @@ Section Machine.
             let e := env_of (rev (m_stack m)) in
             match scan_level s e (q_rt q) true (q_cs q) with
             | LvInvalid => (m, SInvalid)
-            | LvPanic => (m, SPanic)
             | LvEmpty => next_state (mkfr [] None false :: m_stack m) (m_path m)
             | LvOk => next_state (mkfr (level_impl s e (q_rt q) (q_cs q) (q_lim q)) None false :: m_stack m) (m_path m)
             end
